@@ -20,3 +20,9 @@ pub mod c03;
 pub mod c27;
 pub mod c23;
 pub mod c24;
+pub mod c31;
+pub mod c32;
+pub mod c33;
+pub mod c38;
+pub mod c36;
+pub mod c34;
